@@ -179,6 +179,7 @@ func (ord *Order) ValidateWithContext(ctx context.Context) error {
 			validation.Required,
 			currency.CanConvertInto(ord.ExchangeRates, r.GetCurrency()),
 		),
+		validation.Field(&ord.Period),
 		validation.Field(&ord.ExchangeRates),
 		validation.Field(&ord.Identities),
 		validation.Field(&ord.Contracts),
